@@ -25,14 +25,26 @@ pub struct RnShape {
     /// outstanding (not yet persisted) ready records: (number, last_entry (idx_off, term), snapshot)
     pub records: &'static [(u64, Option<(u64, u64)>, Option<(u64, u64)>)],
     pub max_number: u64,
+    /// max_committed_size_per_ready = 0: committed entries are handed out one per (Light)Ready
+    pub page0: bool,
+    /// max_apply_unpersisted_log_limit (0 = only persisted entries are handed out for apply)
+    pub apply_ahead: u64,
 }
 
 impl RnShape {
     pub const fn of(raft: Shape) -> RnShape {
-        RnShape { raft, prev_role: None, prev_term_lag: 0, prev_vote_same: true, records: &[], max_number: 0 }
+        RnShape { raft, prev_role: None, prev_term_lag: 0, prev_vote_same: true, records: &[], max_number: 0, page0: false, apply_ahead: 0 }
     }
     pub const fn prev_role(mut self, r: StateRole) -> RnShape {
         self.prev_role = Some(r);
+        self
+    }
+    pub const fn page0(mut self) -> RnShape {
+        self.page0 = true;
+        self
+    }
+    pub const fn apply_ahead(mut self, k: u64) -> RnShape {
+        self.apply_ahead = k;
         self
     }
     pub const fn records(mut self, r: &'static [(u64, Option<(u64, u64)>, Option<(u64, u64)>)], max: u64) -> RnShape {
@@ -66,6 +78,10 @@ pub fn mk_rawnode(s: &mut Src, sh: &RnShape) -> (RawNode<VStore>, Ghost) {
     // the durable hard state the application holds
     let mut r = r;
     r.raft_log.store.hs = view.prev_hs.clone();
+    if sh.page0 {
+        r.set_max_committed_size_per_ready(0);
+    }
+    r.raft_log.max_apply_unpersisted_log_limit = sh.apply_ahead;
     (RawNode::verif_from_parts(r, view), g)
 }
 
@@ -138,7 +154,13 @@ pub fn checked_ready(rn: &mut RawNode<VStore>) -> (Ready, Obs) {
         assert!(ce.is_empty(), "snapshot Ready carries committed entries");
     }
     let lo = if since + 1 > first { since + 1 } else { first };
-    let expect_n = if upper + 1 > lo { (upper + 1 - lo) as usize } else { 0 };
+    let mut expect_n = if upper + 1 > lo { (upper + 1 - lo) as usize } else { 0 };
+    // pagination: only the limits NO_LIMIT and 0 (= one entry per hand-off) are modelled
+    let page = rn.raft.verif_private().max_committed_size_per_ready;
+    assert!(page == 0 || page == raft::NO_LIMIT, "harness: unsupported page size");
+    if page == 0 && expect_n > 1 {
+        expect_n = 1;
+    }
     assert!(ce.len() == expect_n, "committed_entries: not exactly the committed, persisted, not yet handed range");
     let mut k = 0;
     while k < ce.len() {
@@ -248,7 +270,10 @@ pub fn checked_advance(rn: &mut RawNode<VStore>, rd: Ready, o: &Obs) {
     let upto = if ce.is_empty() { handed } else { ce[ce.len() - 1].index };
     let limit = rn.raft.raft_log.max_apply_unpersisted_log_limit;
     let committed = rn.raft.raft_log.committed;
-    let bound = if committed < persisted + limit { committed } else { persisted + limit };
+    let mut bound = if committed < persisted + limit { committed } else { persisted + limit };
+    if rn.raft.verif_private().max_committed_size_per_ready == 0 && bound > handed + 1 {
+        bound = handed + 1; // one entry per hand-off
+    }
     assert!(upto == if bound > handed { bound } else { handed }, "LightReady did not hand out everything committed and persisted");
     // advance() marks what the *Ready* handed out as applied
     if handed > 0 {
@@ -378,6 +403,70 @@ pub fn cycle(s: &mut Src, sh: &RnShape, inp: &Input, second: &Input) {
     let hs = rn.raft.hard_state();
     assert!(rn.verif_view().prev_hs == hs);
     vcover!(true, "cycle completed");
+    forget(rn);
+}
+
+/// input -> (ready -> persist -> advance) repeated `rounds` times: with pagination or apply-ahead
+/// the committed entries arrive in several hand-offs; every hand-off is checked to continue right
+/// after the previous one, and after the last round everything committed and allowed has been
+/// handed out exactly once.
+pub fn cycle_drain(s: &mut Src, sh: &RnShape, inp: &Input, rounds: usize) {
+    let (mut rn, g) = mk_rawnode(s, sh);
+    apply_input(&mut rn, &sh.raft, inp);
+    let mut k = 0;
+    while k < rounds {
+        let (rd, o) = checked_ready(&mut rn);
+        app_persist(&mut rn, &rd);
+        checked_advance(&mut rn, rd, &o);
+        k += 1;
+    }
+    let l = &rn.raft.raft_log;
+    let bound = if l.committed < l.persisted + l.max_apply_unpersisted_log_limit { l.committed } else { l.persisted + l.max_apply_unpersisted_log_limit };
+    assert!(rn.verif_view().commit_since_index == bound, "after draining, everything committed (and persisted) has been handed out");
+    assert!(!rn.has_ready(), "nothing left, but has_ready() is true");
+    vcover!(true, "drained");
+    forget(rn);
+}
+
+/// Asynchronous persistence, the plain case: input -> ready -> the application writes ->
+/// advance_append_async (nothing may count as persisted yet) -> on_persist_ready(number) ->
+/// second ready / advance hands out what became applicable, in order, exactly once.
+pub fn cycle_async(s: &mut Src, sh: &RnShape, inp: &Input) {
+    let (mut rn, g) = mk_rawnode(s, sh);
+    apply_input(&mut rn, &sh.raft, inp);
+    let persisted0 = rn.raft.raft_log.persisted;
+    let (rd, o) = checked_ready(&mut rn);
+    app_persist(&mut rn, &rd);
+    let num = rd.number();
+    let n_ents = rd.entries().len();
+    let last_written = if n_ents > 0 { rd.entries()[n_ents - 1].index } else { 0 };
+    let snap_idx = if rd.snapshot().is_empty() { 0 } else { rd.snapshot().get_metadata().index };
+    let handed1 = o.handed_upto;
+    rn.advance_append_async(rd);
+    {
+        let v = rn.verif_view();
+        assert!(rn.raft.raft_log.persisted == persisted0, "advance_append_async counted something as persisted");
+        assert!(rn.raft.raft_log.unstable_entries().is_empty() && rn.raft.raft_log.unstable_snapshot().is_none(), "entries / snapshot handed out twice");
+        assert!(v.records.len() == 1 && v.records[0].0 == num, "outstanding Ready not recorded");
+        assert!(v.prev_hs == rn.raft.hard_state());
+        assert!(v.commit_since_index == handed1);
+    }
+    rn.on_persist_ready(num);
+    let p1 = rn.raft.raft_log.persisted;
+    let exp = if last_written > 0 { last_written } else if snap_idx > persisted0 { snap_idx } else { persisted0 };
+    assert!(p1 == exp, "persisted index after the persistence notice");
+    assert!(rn.verif_view().records.is_empty(), "record outlived its persistence notice");
+    // the application reports what it applied so far
+    rn.advance_apply_to(handed1);
+    let (rd2, o2) = checked_ready(&mut rn);
+    assert!(rd2.entries().is_empty() && rd2.snapshot().is_empty(), "already written data handed out again");
+    app_persist(&mut rn, &rd2);
+    checked_advance(&mut rn, rd2, &o2);
+    let l = &rn.raft.raft_log;
+    let bound = if l.committed < l.persisted { l.committed } else { l.persisted };
+    assert!(rn.verif_view().commit_since_index == bound, "everything committed and persisted has been handed out");
+    assert!(!rn.has_ready());
+    vcover!(true, "done");
     forget(rn);
 }
 
